@@ -14,7 +14,9 @@ ING = "ing:a,ing:-a,ing:a+b,ing:-a+ab-b,ing:AB,ing:a2-,C,C*,R,V"
 ING_STALL = "ing:a,ing:-a,ing:a+b,ing:-a+ab-b,ing:AB,ing:a2-,ing:a~c,ing:-ab~c,ing!:a+b,ing!:a~c,C,C*,R,V"
 ING_STRADDLE = "ing:a,ing:-a,ing:a+b,ing:-a+ab-b,ing:AB,ing:a2-,ing:a~c,ing:-ab~c,C,C*,R,V"
 ING_STALL_FAIL = ING_STALL.replace(",C,", ",C,C!,")
-ING_SCAN = "ing:a,ing:-a+ab-b,ing:AB,ing:a+b,scan:0,scan:8,walk:0:next,walk:0:prev,walk:0:seek(ab),C,C*,V"
+# a kept cursor driven to its end (or anywhere) and used again after compactions retired its files
+CURSOR_REUSE = "scan:0,walk:0:to_end,walk:0:prev,walk:0:seek_to_first,walk:0:seek_to_last,walk:0:seek(ab),walk:0:next,C,C*,F,del:a"
+ING_SCAN = "ing:a,ing:-a+ab-b,ing:AB,ing:a+b,scan:0,scan:8,walk:0:next,walk:0:prev,walk:0:to_end,walk:0:seek(ab),C,C*,V"
 
 
 def tree(prop, depth, seed_depth, extra=None, alphabet=ING, cfgs=ADV, timeout=3000):
@@ -125,13 +127,13 @@ CHECKS = {
         "technique": "explicit-state bounded model checking (cursors held across every event sequence <= d, compared with the model at open time) plus stateless model checking under loom of a cursor walk racing writer / flush / compaction threads, skiplist allocation registry on",
         "design_ref": "DESIGN.md 4 (C07)",
         "jobs": {
-            "quick": [tree("C07", 5, 3, alphabet=ING_SCAN), seq("C07", 4), {"ws": "loomh", "bin": "loom_kvs", "args": ["--prop", "C07"], "timeout": 1200},
+            "quick": [tree("C07", 5, 3, alphabet=ING_SCAN), seq("C07", 4), seq("C07", 4, "A-min", ["--alphabet", CURSOR_REUSE, "--seed-depth", 4]), {"ws": "loomh", "bin": "loom_kvs", "args": ["--prop", "C07"], "timeout": 1200},
                       {"ws": "harness", "bin": "sched_store", "args": ["--prop", "C07"], "timeout": 1200}],
-            "thorough": [tree("C07", 6, 4, ["--min-depth", 5, "--budget", 1800], alphabet=ING_SCAN), seq("C07", 5), seq("C07", 4, "A-min,D-stall12,F-anygc,H-mem64-mand1"), {"ws": "loomh", "bin": "loom_kvs", "args": ["--prop", "C07"], "timeout": 10000},
+            "thorough": [tree("C07", 6, 4, ["--min-depth", 5, "--budget", 1800], alphabet=ING_SCAN), seq("C07", 5), seq("C07", 4, "A-min,D-stall12,F-anygc,H-mem64-mand1"), seq("C07", 6, "A-min", ["--alphabet", CURSOR_REUSE, "--seed-depth", 5]), {"ws": "loomh", "bin": "loom_kvs", "args": ["--prop", "C07"], "timeout": 10000},
                          {"ws": "harness", "bin": "sched_store", "args": ["--prop", "C07"], "timeout": 10000}],
         },
         "text": "The alphabet adds 'open a scan and keep it' (two bound pairs) and cursor movements on kept cursors (next, prev, seek) to writes, flush, compaction, compact-until-idle and verifier passes; every sequence of <= d steps is run; each kept cursor must show exactly what a vector cursor over the model AT OPEN TIME shows, every movement must return Ok, nothing may panic, and no released skiplist node may be dereferenced (allocation registry).",
-        "note": "seq_store: events happen between cursor calls; the SST cache is off in row A so that a cached table cannot mask a retired file. loom_kvs C07: the main thread opens a scan over a snapshot that spans an SST and the memtable and walks it forward and backward while other threads put/delete, run a flush-loop iteration and compaction-loop iterations (4 harnesses, preemption bounds 1-3 completed): every walk must equal the state at open, every call must succeed, and the allocation registry must see no released skiplist node dereferenced. A further job runs the same oracles on a bare LsmTree fed through LsmTree::ingest with externally built SSTs (ten file shapes: single puts and tombstones, whole-range files, a 5 KiB value, two versions of a key in one file; timestamps grow with the step), compaction steps, reopen and verifier passes, from the empty tree and from four seeded states (stacked oldest levels with and without a pending level-0 file, a lower-level file whose timestamps straddle an overlapping upper-level file, before and after reopening). Where the alphabet says so (C01 C04 C08 C20) it also contains two file shapes whose timestamp range straddles earlier files and ingests that park on the level-0 stall (helper thread, completed by whichever later compaction step makes room; a parked flush F! does the same for the store subject): the interplay of a stalled writer with compactions and GCs is then part of the sequential state space.",
+        "note": "seq_store: events happen between cursor calls; the SST cache is off in row A so that a cached table cannot mask a retired file. A further job uses a cursor-reuse sub-alphabet (one kept scan; to_end = next until exhausted, prev, next, seek_to_first, seek_to_last, seek; flush, compaction, compact-until-idle, a delete) with the full depth from every seeded state as well: a cursor that was exhausted, or left anywhere, and is used again after compactions replaced the files it reads. loom_kvs C07: the main thread opens a scan over a snapshot that spans an SST and the memtable and walks it forward and backward while other threads put/delete, run a flush-loop iteration and compaction-loop iterations (4 harnesses, preemption bounds 1-3 completed): every walk must equal the state at open, every call must succeed, and the allocation registry must see no released skiplist node dereferenced. A further job runs the same oracles on a bare LsmTree fed through LsmTree::ingest with externally built SSTs (ten file shapes: single puts and tombstones, whole-range files, a 5 KiB value, two versions of a key in one file; timestamps grow with the step), compaction steps, reopen and verifier passes, from the empty tree and from four seeded states (stacked oldest levels with and without a pending level-0 file, a lower-level file whose timestamps straddle an overlapping upper-level file, before and after reopening). Where the alphabet says so (C01 C04 C08 C20) it also contains two file shapes whose timestamp range straddles earlier files and ingests that park on the level-0 stall (helper thread, completed by whichever later compaction step makes room; a parked flush F! does the same for the store subject): the interplay of a stalled writer with compactions and GCs is then part of the sequential state space.",
     },
     "C08": {
         "level": "model_checking",
